@@ -434,8 +434,7 @@ __CPROVER_ensures(EP_AUX_CELL_SAME(b, __CPROVER_old(b->offset), __CPROVER_old(b-
 ssize_t sts_atmost_aux(Source *source, Sink *sink, ByteBuffer *b, const size_t n)
 __CPROVER_requires(EP_SOURCE_OK(source) && EP_SINK_OK(sink) && EP_AUX_OK(b, source, sink))
 __CPROVER_assigns(EP_PIPE_ASSIGNS;
-    b->used > b->offset && n >= b->used - b->offset: __CPROVER_object_upto(b->data + b->offset, b->used - b->offset);
-    n > 0 && n < b->used - b->offset: __CPROVER_object_upto(b->data + b->offset, n))
+    b->used > b->offset && n > 0: __CPROVER_object_upto(b->data + b->offset, b->used - b->offset))
 __CPROVER_ensures(EP_STS_AUX_ONCE_POST(source, EP_MIN(__CPROVER_old(b->used) - __CPROVER_old(b->offset), n), __CPROVER_return_value))
 __CPROVER_ensures(EP_AUX_FIELDS_SAME(b))
 __CPROVER_ensures(EP_AUX_CELL_SAME(b, __CPROVER_old(b->offset), EP_MIN(__CPROVER_old(b->used) - __CPROVER_old(b->offset), n)))
